@@ -15,6 +15,7 @@ import (
 type Conn struct {
 	connection       net.Conn
 	closed           atomic.Bool
+	handshakeDone    atomic.Bool
 	handshakeContext func(ctx context.Context) error
 	lock             sync.Mutex
 }
@@ -58,18 +59,30 @@ func (c *Conn) Close() error {
 }
 
 func (c *Conn) handshake(ctx context.Context) error {
-	if c.handshakeContext != nil {
-		err := c.handshakeContext(ctx)
-		if err == nil {
-			return nil
-		}
-		errC := c.Close()
-		if errC == nil {
-			return err
-		}
-		return fmt.Errorf("%v", []error{err, errC})
+	if c.handshakeContext == nil || c.handshakeDone.Load() {
+		return nil
 	}
-	return nil
+	// The transport serializes handshakes: while another goroutine (e.g. the reader of the connection) is inside
+	// its handshake, this call would wait for it without looking at ctx. Wait for ctx as well.
+	errCh := make(chan error, 1)
+	go func() {
+		errCh <- c.handshakeContext(ctx)
+	}()
+	var err error
+	select {
+	case err = <-errCh:
+	case <-ctx.Done():
+		err = ctx.Err()
+	}
+	if err == nil {
+		c.handshakeDone.Store(true)
+		return nil
+	}
+	errC := c.Close()
+	if errC == nil {
+		return err
+	}
+	return fmt.Errorf("%v", []error{err, errC})
 }
 
 // WriteWithContext writes data with context.
